@@ -77,6 +77,10 @@ def c28(tier, seed):
         J(E, "VerifK28aSerializerRoundTrip", u=3 if q else 6, t=4 if q else 8),
         J(E, "VerifK28aDeserializeAny", len=6 if q else 12),
         J(E, "VerifK28bTokenEncoder", d=3 if q else 6, timeout_ms=300000),
+        # the real base64 layer (encoding/base64 from source): Decode(Encode(b)) = b, URL-safe alphabet only
+        J(E, "VerifK28cBase64RoundTrip", len=4 if q else 7, timeout_ms=300000),
+        # which AES key a configured key string becomes: different keys (1, 31, 32, 33 bytes) derive different keys
+        J("pkg/encrypter", "VerifK28dKeyDerivation", timeout_ms=300000),
     ]
 
 
@@ -98,9 +102,9 @@ SPEC = {
     "C28": {
         "jobs": c28,
         "level_text": "bounded symbolic execution of the continuation-token serializer and of the TokenEncoder+GCMEncrypter framing around an ideal AEAD: serialize/deserialize round-trips for every ulid without '|' and every type string, every accepted string re-serializes to itself, Decode(Encode(d)) = d, and every string that was not issued is rejected (except the documented empty-token pass-through)",
-        "level_note": "bounds: ulid <= 3/6 bytes, type <= 4/8 bytes, payload <= 3/6 bytes, forged token <= payload+4 bytes; AES-GCM replaced by an ideal AEAD with symbolic keystream and tag (Open succeeds exactly on sealed pairs), nonce from crypto/rand = arbitrary bytes; base64 is the identity encoder here (library code outside)",
+        "level_note": "bounds: ulid <= 3/6 bytes, type <= 4/8 bytes, payload <= 3/6 bytes, forged token <= payload+4 bytes; AES-GCM replaced by an ideal AEAD with symbolic keystream and tag (Open succeeds exactly on sealed pairs), nonce from crypto/rand = arbitrary bytes; in K28a/b base64 is the identity encoder, K28c executes the real Base64Encoder (encoding/base64 from its source) on byte strings <= 4/7 bytes",
         "assumptions": ["ideal AEAD", "crypto/rand yields arbitrary bytes"],
-        "outside": ["AES-GCM and base64 as mathematics", "key derivation strength"],
+        "outside": ["AES-GCM as mathematics (ideal AEAD)", "strength of SHA-256 (uninterpreted function, collision freedom on the two keys assumed in K28d)", "byte strings longer than the bounds"],
     },
     "C14": {
         "jobs": c14,
